@@ -354,8 +354,14 @@ func (c19Driver) Run(spec *simrt.Spec, agg *Agg, keep bool) *Outcome {
 			faultsConfigured = true
 		}
 	}
+	// a pre-existing regular file where a job needs a directory makes MkdirAll fail by itself
 	for p := range spec.Files {
-		_ = p
+		cp := filepath.Clean(p)
+		for _, ep := range expPath {
+			if ep != "" && strings.HasPrefix(ep, cp+"/") {
+				faultsConfigured = true
+			}
+		}
 	}
 
 	// clause 2: failure => error
@@ -368,6 +374,10 @@ func (c19Driver) Run(spec *simrt.Spec, agg *Agg, keep bool) *Outcome {
 	// fault-free configurations must succeed
 	if !stepFailed && !hasUnnamed && perr != nil {
 		return fail("spurious-error", "no step failed but Persist returned %v", perr)
+	}
+	// ... and no step may fail when nothing was injected: such a failure is made by the code itself
+	if !faultsConfigured && (stepFailed || perr != nil) {
+		return fail("spurious-error", "nothing was injected (no failing post-process, no disk fault, no blocking file), yet a step failed (%v) and Persist returned %v", failedOps, perr)
 	}
 
 	// clause 4: nothing in flight at return, nothing started afterwards
